@@ -190,6 +190,9 @@ def run(report, tier, seed):
         e = RT.EmptyCell()
         return ev('F5', A1=e, A2=b) == b and ev('F5', A1=a, A2=e) == a and ev('F7', A1=a, A2=e, A3=c) == a + c and ev('F6', A1=e, A2=e, A3=c) == c
     ''', encodes=cenc, requires="'F5' in K and 'F6' in K and 'F7' in K")
+    s.add('f_amp_textcells_overridden_with_numbers', 'i: int, j: int', "-99 <= i <= 99 and -99 <= j <= 99",
+          "return ev('F5', A1=i, A2=j) == str(i) + str(j) and ev('F7', A1=i, A2='b', A3=j) == str(i) + 'b' + str(j)",
+          encodes=cenc, requires="'F5' in K and 'F7' in K", timeout=T * 2, note='A1..A3 hold texts in the workbook; the emitted code must not depend on that')
     s.add('f_concatenate_single_operand', 'a: str, i: int', "len(a) <= 2 and all(ch in 'abAB.' for ch in a) and -1000 <= i <= 1000",
           "return ev('F19', B1=i) == str(i) and ev('F20', A1=a) == a + '!' and ev('F21', A1=a, B1=i) == str(i + 1) + a and ev('F20', A1=i) == str(i) + '!'",
           encodes=cenc, requires="'F19' in K and 'F20' in K and 'F21' in K")
